@@ -1,6 +1,6 @@
-// Unit U9 (config): Config::merge_file / Config::merge_args / Config::into_config_file of src/config.rs (property C20).
-// Contracts are generated from a field table written from the documentation: each setting takes the command-line value if
-// given, else the file value, else what was there (the default); list-valued settings accumulate.
+// Unit U9 (config): Config::merge_file / Config::merge_args of src/config.rs (property C20) as four contiguous statement ranges each
+// (the whole-function VC exceeds the solver limit).  Contracts are generated from a field table written from the documentation:
+// each setting takes the command-line value if given, else the file value, else what was there (the default); lists accumulate.
 #![allow(unused_imports, dead_code, unused_variables, unused_mut)]
 use vstd::prelude::*;
 use std::collections::HashMap;
@@ -59,18 +59,35 @@ fn pinned_merge_hooks_from_file(hooks: &mut HashMap<String, String>, from: HashM
 fn pinned_merge_hook_args(hook: &mut Option<String>, hooks: &mut HashMap<String, String>, from: Vec<String>)
 { unimplemented!() }
 
+//@ item const src/config.rs DEFAULT_PEER_TIMEOUT
+//@ end
+impl CryptoConfig {
+    #[verifier::external_body]
+    fn default() -> (r: CryptoConfig) { unimplemented!() }
+}
 impl Config {
-//@ fn src/config.rs Config::merge_file
+// ---- Config::merge_file in four contiguous ranges ----
+/*@BLOCKS_FILE@*/
+// ---- Config::merge_args in four contiguous ranges ----
+/*@BLOCKS_ARGS@*/
+//@ fn src/config.rs Default for Config::default
+//@   ret r
 //@   contract
-/*@CONTRACT_FILE@*/
-//@   subst "for (k, v) in file.hooks {\n            self.hooks.insert(k, v);\n        }" => "pinned_merge_hooks_from_file(&mut self.hooks, file.hooks);" rule R5
+        ensures
+            // the documented defaults (vpncloud.adoc): tun device "vpncloud%d", listen 3210, peer timeout 300 s, no explicit keepalive,
+            // beacon interval 3600 s, mode normal, switch timeout 300 s, auto-claim and port forwarding on, not daemonized, empty lists
+            r.device_type == Type::Tun, r.device_name@ == "vpncloud%d"@, r.device_path is None, !r.fix_rp_filter,
+            r.ip is None, r.advertise_addresses@.len() == 0, r.ifup is None, r.ifdown is None,
+            r.listen@ == "3210"@, r.peers@.len() == 0, r.peer_timeout == 300, r.keepalive is None,
+            r.beacon_store is None, r.beacon_load is None, r.beacon_interval == 3600, r.beacon_password is None,
+            r.mode == Mode::Normal, r.switch_timeout == 300, r.claims@.len() == 0, r.auto_claim, r.port_forwarding, !r.daemonize,
+            r.pid_file is None, r.stats_file is None, r.statsd_server is None, r.statsd_prefix is None, r.user is None, r.group is None, r.hook is None,
 //@ end
 
-//@ fn src/config.rs Config::merge_args
+//@ fn src/config.rs Config::into_config_file
+//@   ret file_
 //@   contract
-/*@CONTRACT_ARGS@*/
-//@   replace from "for s in args.hook {" to "self.hook = Some(s);\n            }\n        }"
-        pinned_merge_hook_args(&mut self.hook, &mut self.hooks, args.hook);
+/*@CONTRACT_INTO@*/
 //@ end
 }
 
